@@ -256,6 +256,20 @@ class K:
         if f == 'len' and len(call.args) == 1 and ast.unparse(call.args[0]).startswith('range('):
             r = call.args[0]
             a, b, c = self.args(r, env, ['Z', 'Z', 'Z']); return f'(range_len {a} {b} {c})', 'Z', 'pure'
+        # stream methods that move the position (modelled on the whole stream state)
+        if self.mode == 'stream' and f in STREAM_CALLS:
+            ent = STREAM_CALLS[f]
+            a = self.args(call, env, ent['args'])
+            return ent['coq'].format(*a, st=f'(mkstream {V("self")} {V("_pos")})'), 'unit', 'st'
+        if f == 'Bits._clear' and len(call.args) == 1 and ast.unparse(call.args[0]) == 'self':
+            return '(@nil bool)', 'unit', ('mut', 'self')
+        if f in ('super().prepend', 'super().append') and len(call.args) == 1:
+            (a,) = self.args(call, env, ['bits'])
+            return f'(ba_{f.split(".")[1]} lsb0 {V("self")} {a})', 'unit', ('mut', 'self')
+        if f in ('self._bitstore.__delitem__',) and len(call.args) == 1:
+            a, t = self._expr(call.args[0], env)
+            if t == 'slice': return f'(delslice lsb0 {V("self")} {a})', 'unit', ('mutres', 'self')
+            if t == 'Z': return f'(delbit lsb0 {V("self")} {a})', 'unit', ('mutres', 'self')
         # method calls on a bit-content variable
         if isinstance(call.func, ast.Attribute):
             recv = call.func.value; m = call.func.attr
@@ -350,6 +364,9 @@ class K:
                 return self.bind(env, text, var, cont(env))
             if kind == 'res':
                 return self.bind(env, text, '_', cont(env))
+            if kind == 'st':
+                return (f"(match {text} with (s_, Ok _) => (let {V('self')} := sbits s_ in let {V('_pos')} := spos s_ in {cont(env)}) "
+                        f"| (s_, Err e_) => ((sbits s_, spos s_), Err e_) end)")
             raise Untranslatable('expression statement without effect: ' + ast.unparse(s))
         if isinstance(s, ast.Delete) and len(s.targets) == 1:
             t = s.targets[0]
@@ -509,6 +526,14 @@ STORE_METHODS = {
     'reverse': dict(args=[], coq='(rev {self})', kind='mut'),
     '_copy': dict(args=[], coq='{self}', ret='bits', kind='pure'),
 }
+STREAM_CALLS = {
+    'self._setbitpos': dict(args=['Z'], coq='(set_pos {st} {0})'),
+    'self._setbytepos': dict(args=['Z'], coq='(set_bytepos {st} {0})'),
+}
+METHODS.update({
+    '_append': dict(args=['bits'], coq='(ba_append lsb0 {self} {0})', kind='mut'),
+    '_prepend': dict(args=['bits'], coq='(ba_prepend lsb0 {self} {0})', kind='mut'),
+})
 FUNCS = {
     'indices': dict(args=['slice', 'Z'], coq='(indices {0} {1})', ret='tripleZoZ', kind='res'),
     'offset_slice_indices_lsb0': dict(args=['slice', 'Z'], coq='(offset_slice_indices_lsb0 {0} {1})', ret='slice', kind='res'),
@@ -517,7 +542,32 @@ FUNCS = {
 # ------------------------------------------------------------------------------------------------
 # the kernels.  model: the hand-model term the generated definition must equal (same argument names, v_ prefixed)
 # ------------------------------------------------------------------------------------------------
+ST = '(mkstream v_self v__pos)'
 KERNELS = [
+    dict(py='bitstream.py:ConstBitStream._setbitpos', name='k_st_setbitpos', mode='stream', ret='unit', props=['C06'], lsb0='false',
+         params=[('pos', 'Z')], model=f'unst (set_pos {ST} v_pos)'),
+    dict(py='bitstream.py:ConstBitStream._setbytepos', name='k_st_setbytepos', mode='stream', ret='unit', props=['C06'], lsb0='false',
+         params=[('bytepos', 'Z')], model=f'unst (set_bytepos {ST} v_bytepos)'),
+    dict(py='bitstream.py:ConstBitStream._getbytepos', name='k_st_getbytepos', mode='stream', ret='Z', props=['C06'], lsb0='false',
+         params=[], model=f'((v_self, v__pos), get_bytepos {ST})'),
+    dict(py='bitstream.py:ConstBitStream.bytealign', name='k_st_bytealign', mode='stream', ret='Z', props=['C06'], lsb0='false',
+         params=[], model=f'unst (bytealign {ST})'),
+    dict(py='bitstream.py:ConstBitStream._clear', name='k_st_clear', mode='stream', ret='unit', props=['C06'], lsb0='false',
+         params=[], model=f'unst (st_clear {ST})'),
+    dict(py='bitstream.py:BitStream.append', name='k_st_append', mode='stream', ret='unit', props=['C06'], lsb0='false',
+         params=[('bs', 'bits')], model=f'unst (st_append {ST} v_bs)'),
+    dict(py='bitstream.py:BitStream.__iadd__', name='k_st_iadd', mode='stream', ret='unit', props=['C06'], lsb0='false',
+         params=[('bs', 'bits')], model=f'unst (st_append {ST} v_bs)'),
+    dict(py='bitstream.py:BitStream.prepend', name='k_st_prepend', mode='stream', ret='unit', props=['C06'], lsb0='false',
+         params=[('bs', 'bits')], model=f'unst (st_prepend {ST} v_bs)'),
+    dict(py='bitstream.py:BitStream.insert', name='k_st_insert', mode='stream', ret='unit', props=['C06'], lsb0='false', identity={'bs': 1},
+         params=[('bs', 'bits'), ('pos', 'optZ')], model=f'unst (st_insert {ST} v_bs v_pos)', hyps=['same_bs = true -> v_bs = v_self']),
+    dict(py='bitstream.py:BitStream.overwrite', name='k_st_overwrite', mode='stream', ret='unit', props=['C06'], lsb0='false', identity={'bs': 1},
+         params=[('bs', 'bits'), ('pos', 'optZ')], model=f'unst (st_overwrite {ST} same_bs v_bs v_pos)', hyps=['same_bs = true -> v_bs = v_self']),
+    dict(py='bitstream.py:BitStream.__delitem__', name='k_st_delitem_slice', mode='stream', ret='unit', props=['C06'], lsb0='false',
+         params=[('key', 'slice')], model=f'unst (st_delitem_slice {ST} v_key)'),
+    dict(py='bitstream.py:BitStream.__delitem__', name='k_st_delitem_int', mode='stream', ret='unit', props=['C06'], lsb0='false',
+         params=[('key', 'Z')], model=f'unst (st_delitem_int {ST} v_key)'),
     dict(py='bitstore.py:indices', name='k_indices', mode='pure', ret='tripleZoZ', props=['C01', 'C12', 'C08'],
          params=[('s', 'slice'), ('length', 'Z')], model='indices v_s v_length'),
     dict(py='bitstore.py:offset_slice_indices_lsb0', name='k_offset_slice_indices_lsb0', mode='pure', ret='slice', props=['C01', 'C12'],
@@ -584,12 +634,12 @@ def find_function(repo, py):
 
 
 HEADER = """(* generated by tools/gen/kernels.py from /repo's working tree: one definition per translated function *)
-From BS Require Import Prims BitsCore Mutators KernelLib.
+From BS Require Import Prims BitsCore Mutators Search Stream KernelLib.
 Open Scope Z_scope.
 """
 
 BRIDGE_HEADER = """(* bridge obligations: the translated source equals the hand model, for all arguments *)
-From BS Require Import Prims BitsCore Mutators KernelLib.
+From BS Require Import Prims BitsCore Mutators Search Stream KernelLib.
 From Gen Require Import GenKernels.
 Open Scope Z_scope.
 """
@@ -627,6 +677,10 @@ def coq_params(spec):
 def bridge_text(spec):
     ps, names = coq_params(spec)
     hyps = ''.join(f'({h}) -> ' for h in spec.get('hyps', []))
+    if spec.get('lsb0') is not None:      # a model that exists for one bit numbering only (the stream machine is msb0)
+        return (BRIDGE_HEADER +
+                f'Lemma bridge_{spec["name"]} : forall {" ".join(ps)}, {hyps}{spec["name"]} {spec["lsb0"]} {" ".join(names)} = {spec["model"]}.\n'
+                f'Proof. bridge {spec["name"]}. Qed.\nPrint Assumptions bridge_{spec["name"]}.\n')
     return (BRIDGE_HEADER +
             f'Lemma bridge_{spec["name"]} : forall (lsb0 : bool) {" ".join(ps)}, {hyps}{spec["name"]} lsb0 {" ".join(names)} = {spec["model"]}.\n'
             f'Proof. bridge {spec["name"]}. Qed.\nPrint Assumptions bridge_{spec["name"]}.\n')
@@ -645,6 +699,7 @@ if __name__ == '__main__':
 # ------------------------------------------------------------------------------------------------
 DOM_BITS = ['', '1', '10', '110', '01101', '10110010', '110100101', '1000001101100111', '011011100000000110100101']
 RET_EQB = {'self': 'rbits_eqb', 'bits': 'rbits_eqb', 'pairZZ': 'rzz_eqb', 'slice': 'rslice_eqb', 'tripleZoZ': 'rzoz_eqb'}
+ST_EQB = {'unit': 'st_unit_eqb', 'Z': 'st_z_eqb'}
 
 def zdom(n):
     if n <= 9: return list(range(-n - 2, n + 3))
@@ -676,20 +731,25 @@ def domain(spec, selfbits):
 
 def search_text(spec):
     """-> (Coq text, decode) where decode(content index, flat index) gives the python argument values"""
-    if spec['ret'] not in RET_EQB: raise Untranslatable('no result comparison for ' + spec['ret'])
-    lines = ['From BS Require Import Prims CaseLib BitsCore Mutators KernelLib.', 'From Coq Require Import String.', 'From GenK Require Import GenKernels.', 'Open Scope Z_scope.',
+    stream = spec.get('mode') == 'stream'
+    if (spec['ret'] not in RET_EQB) and not (stream and spec['ret'] in ST_EQB): raise Untranslatable('no result comparison for ' + spec['ret'])
+    lines = ['From BS Require Import Prims CaseLib BitsCore Mutators Search Stream KernelLib.', 'From Coq Require Import String.', 'From GenK Require Import GenKernels.', 'Open Scope Z_scope.',
              'Fixpoint bad_idx {A} (f : A -> bool) (l : list A) (i : Z) : list Z := match l with [] => [] | x :: r => if f x then bad_idx f r (i + 1) else i :: bad_idx f r (i + 1) end.']
     table = []
     for ci, sb in enumerate(DOM_BITS if spec.get('mode', 'pure') != 'pure' else ['']):
         doms = domain(spec, sb)
+        if stream:      # every valid position of the stream, as one more (first) argument
+            pv = list(range(0, len(sb) + 1)) if len(sb) <= 9 else sorted({0, 1, 7, 8, 9, len(sb) // 2, len(sb) - 1, len(sb)})
+            doms = [(pv, [f'({v})' for v in pv])] + doms
         # nested products: (a1, (a2, (a3, tt)))
         prod = 'tt :: nil'
         ctype = {'Z': 'Z', 'optZ': 'option Z', 'bool': 'bool', 'bits': '(bits * bool)', 'slice': 'pyslice'}
-        for (vals, txt), (name, t) in reversed(list(zip(doms, spec['params']))):
+        plist = ([('_pos', 'Z')] if stream else []) + list(spec['params'])
+        for (vals, txt), (name, t) in reversed(list(zip(doms, plist))):
             prod = f'list_prod ({" :: ".join(txt)} :: nil) ({prod})'
         pat, call_g, call_m = 'tt', [], spec['model']
         names = []
-        for name, t in reversed(spec['params']):
+        for name, t in reversed(plist):
             pat = f'({V(name)}, {pat})'
         gargs = []
         binds = ''
@@ -701,8 +761,11 @@ def search_text(spec):
             else:
                 gargs.append(V(name))
         selfarg = 'v_self ' if spec.get('mode', 'pure') in ('bits', 'stream') else ''
-        for lsb0 in (('false', 'true') if spec.get('mode', 'pure') != 'pure' else ('false',)):
-            lines.append(f"Definition d_{ci}_{lsb0} := let lsb0 := {lsb0} in let v_self := of01 \"{sb}\" in bad_idx (fun '{pat} => {binds}{RET_EQB[spec['ret']]} "
+        if stream: selfarg += 'v__pos '
+        modes = ('false',) if spec.get('mode', 'pure') == 'pure' or spec.get('lsb0') == 'false' else ('false', 'true')
+        eqb = ST_EQB[spec['ret']] if stream else RET_EQB[spec['ret']]
+        for lsb0 in modes:
+            lines.append(f"Definition d_{ci}_{lsb0} := let lsb0 := {lsb0} in let v_self := of01 \"{sb}\" in bad_idx (fun '{pat} => {binds}{eqb} "
                          f"({spec['name']} lsb0 {selfarg}{' '.join(gargs)}) ({spec['model']})) ({prod}) 0.")
             table.append((ci, lsb0 == 'true', doms))
     lines.append('Definition all_bad := [' + '; '.join(f'd_{ci}_{"true" if l else "false"}' for ci, l, _ in table) + '].')
@@ -716,7 +779,8 @@ def search_text(spec):
             stride = 1
             for s in sizes[j + 1:]: stride *= s
             vals.append(doms[j][0][rem // stride]); rem %= stride
-        return {'self': DOM_BITS[ci], 'lsb0': lsb0, 'args': dict(zip([p[0] for p in spec['params']], vals))}
+        names = ([('_pos')] if stream else []) + [p[0] for p in spec['params']]
+        return {'self': DOM_BITS[ci], 'lsb0': lsb0, 'args': dict(zip(names, vals))}
     return '\n'.join(lines) + '\n', decode
 
 
